@@ -169,7 +169,7 @@ func c11Request(p *ana.Prog, r *ana.Result) {
 			badIdx = true
 		}
 	})
-	if nElem == 1 && !badIdx {
+	if nElem >= 1 && !badIdx {
 		r.Ok("C11.single-use", fname, "uses-only-first-cookie", p.Pos(nr.Pos()), "the request reads only ntskeData.Cookie[0]")
 	} else {
 		r.Violate("C11.single-use", fname, "uses-only-first-cookie", p.Pos(nr.Pos()), fmt.Sprintf("the request reads cookie elements other than exactly Cookie[0] (%d element reads)", nElem))
@@ -188,10 +188,35 @@ func c11Request(p *ana.Prog, r *ana.Result) {
 			phAppends = append(phAppends, st)
 		}
 	})
-	if len(cookieAppends) == 1 && !inLoop(nr, cookieAppends[0]) && appendsN(cookieAppends[0].Val, 1) {
+	if len(cookieAppends) == 1 && !inLoop(nr, cookieAppends[0]) && (appendsN(cookieAppends[0].Val, 1) || freshSliceOfN(cookieAppends[0].Val, 1)) {
 		r.Ok("C11.single-use", fname, "one-cookie-field", posOf(p, cookieAppends[0]), "exactly one cookie extension field is added, outside any loop")
 	} else {
 		r.Violate("C11.single-use", fname, "one-cookie-field", p.Pos(nr.Pos()), fmt.Sprintf("the request does not carry exactly one cookie field (%d append sites)", len(cookieAppends)))
+	}
+	nc := p.Const("net/nts", "numStoredCookies")
+	nv := int64(-1)
+	if nc != nil {
+		nv, _ = ana.ConstInt(nc.Value)
+	}
+	// the placeholder list allocated at its final length: make([]CookiePlaceholder, 8 - len(ntskeData.Cookie))
+	if len(phAppends) == 1 && !inLoop(nr, phAppends[0]) {
+		if ms, isMS := phAppends[0].Val.(*ssa.MakeSlice); isMS && ms.Cap == ms.Len {
+			pset := ana.NewProverSet(p.AllFuncs)
+			okN := false
+			if l, okL := pset.For(nr).Int(ms.Len, 0); okL && l.C == 8 && len(l.Coef) == 1 {
+				for a, c := range l.Coef {
+					if c == -1 && a == "len(ntskeData.Cookie)" {
+						okN = true
+					}
+				}
+			}
+			if okN && nv == 8 {
+				r.Ok("C11.placeholders", fname, "placeholder-count", posOf(p, phAppends[0]), "placeholders: a list of 8 - len(ntskeData.Cookie) fields, one per cookie missing from the pool of eight")
+			} else {
+				r.Violate("C11.placeholders", fname, "placeholder-count", posOf(p, phAppends[0]), "the number of placeholder fields is not (8 - cookies held)")
+			}
+			return
+		}
 	}
 	// placeholder loop
 	if len(phAppends) != 1 || !inLoop(nr, phAppends[0]) || !appendsN(phAppends[0].Val, 1) {
@@ -253,11 +278,6 @@ func c11Request(p *ana.Prog, r *ana.Result) {
 			}
 		}
 	}
-	nc := p.Const("net/nts", "numStoredCookies")
-	nv := int64(-1)
-	if nc != nil {
-		nv, _ = ana.ConstInt(nc.Value)
-	}
 	if ok && nv == 8 {
 		r.Ok("C11.placeholders", fname, "placeholder-count", posOf(p, phAppends[0]), "placeholders: for i := len(ntskeData.Cookie); i < 8; i++ - one per cookie missing from the pool of eight")
 	} else {
@@ -281,6 +301,19 @@ func appendsN(v ssa.Value, n int64) bool {
 	}
 	s := a.Type().String()
 	return strings.HasPrefix(s, fmt.Sprintf("*[%d]", n))
+}
+
+// freshSliceOfN: v is the full slice of a fresh n-element array (a slice literal with n elements).
+func freshSliceOfN(v ssa.Value, n int64) bool {
+	sl, ok := v.(*ssa.Slice)
+	if !ok || sl.Low != nil || sl.High != nil {
+		return false
+	}
+	a, ok := sl.X.(*ssa.Alloc)
+	if !ok {
+		return false
+	}
+	return strings.HasPrefix(a.Type().String(), fmt.Sprintf("*[%d]", n))
 }
 
 func c11Clients(p *ana.Prog, r *ana.Result) {
@@ -355,6 +388,12 @@ func c11Servers(p *ana.Prog, r *ana.Result) {
 			continue
 		}
 		fname := ana.FuncName(fn)
+		// the fields counted are those of this datagram only (shared with C09)
+		if rds := ana.CallsIn(fn, fnReadMsg); len(rds) == 1 {
+			if rd, ok := rds[0].(*ssa.Call); ok {
+				c09NTSState(p, r, "C11.request-state", fn, rd)
+			}
+		}
 		encs := ana.CallsIn(fn, ana.Q("(*net/ntske.ServerCookie).EncryptWithNonce"))
 		curs := ana.CallsIn(fn, ana.Q("(*net/ntske.Provider).Current"))
 		nrp := ana.CallsIn(fn, ana.Q("net/nts.NewResponsePacket"))
@@ -395,13 +434,30 @@ func c11Servers(p *ana.Prog, r *ana.Result) {
 			c1, _ := ana.CallOf(bo.X)
 			c2, _ := ana.CallOf(bo.Y)
 			a1, a2 := ana.AccessPath(c1.Common().Args[0]), ana.AccessPath(c2.Common().Args[0])
-			if !((a1 == "ntsreq.Cookies" && a2 == "ntsreq.CookiePlaceholders") || (a2 == "ntsreq.Cookies" && a1 == "ntsreq.CookiePlaceholders")) {
+			// the request Packet is the one handed to nts.DecodePacket in this function
+			okPkt := false
+			for _, dc := range ana.CallsIn(fn, ana.Q("net/nts.DecodePacket")) {
+				xp := strings.TrimPrefix(ana.AccessPath(dc.Common().Args[0]), "&")
+				if (a1 == xp+".Cookies" && a2 == xp+".CookiePlaceholders") || (a2 == xp+".Cookies" && a1 == xp+".CookiePlaceholders") {
+					okPkt = true
+				}
+			}
+			if !okPkt {
 				return
 			}
 			// used (only) as the bound of the loop containing the EncryptWithNonce call:
 			// `0 < bound` (rotated pre-check), `i < bound` or `i+1 < bound` with i counting from 0 by 1
 			good, leads := true, false
 			for _, ref := range ana.Referrers(bo) {
+				if ms, isMS := ref.(*ssa.MakeSlice); isMS {
+					// a capacity hint for the list (length 0) does not change the count
+					if k, isK := ana.ConstInt(ms.Len); isK && k == 0 && ms.Cap == ssa.Value(bo) {
+						continue
+					}
+				}
+				if _, isDbg := ref.(*ssa.DebugRef); isDbg {
+					continue
+				}
 				cmp, ok := ref.(*ssa.BinOp)
 				if !ok {
 					good = false
